@@ -340,12 +340,31 @@ class _Subst(ast.NodeTransformer):
             return ast.copy_location(ast.Name(id=self.rename[n.id], ctx=n.ctx), n)
         return n
 
+    star = {}
+
+    def visit_Call(self, c):
+        if self.star and any(isinstance(x, ast.Starred) and isinstance(x.value, ast.Name) and x.value.id in self.star for x in c.args):
+            args = []
+            for x in c.args:
+                if isinstance(x, ast.Starred) and isinstance(x.value, ast.Name) and x.value.id in self.star:
+                    args.extend(copy.deepcopy(y) for y in self.star[x.value.id])
+                else:
+                    args.append(x)
+            c.args = args
+        return self.generic_visit(c)
+
 
 def _bind(fn, call, is_method):
     """param -> arg expression, or None if the call shape is not supported."""
     a = fn.args
-    if a.vararg or a.kwarg or a.posonlyargs or a.kwonlyargs:
+    if a.kwarg or a.posonlyargs or a.kwonlyargs:
         return None
+    va = a.vararg.arg if a.vararg else None
+    if va is not None:
+        # `*shape` that the helper only ever passes on as `f(*shape)`: the extra positional arguments take its place
+        starred = {id(x.value) for c in ast.walk(fn) if isinstance(c, ast.Call) for x in c.args if isinstance(x, ast.Starred)}
+        if any(isinstance(x, ast.Name) and x.id == va and (id(x) not in starred or not isinstance(x.ctx, ast.Load)) for x in ast.walk(fn)):
+            return None
     params = [x.arg for x in a.args]
     if is_method:
         if not params:
@@ -353,9 +372,13 @@ def _bind(fn, call, is_method):
         params = params[1:]
     if any(isinstance(x, ast.Starred) for x in call.args) or any(k.arg is None for k in call.keywords):
         return None
-    if len(call.args) > len(params):
+    if len(call.args) > len(params) and va is None:
         return None
     out = dict(zip(params, call.args))
+    if va is not None:
+        if call.keywords and len(call.args) > len(params):
+            return None
+        out["*" + va] = list(call.args[len(params):])
     for k in call.keywords:
         if k.arg not in params or k.arg in out:
             return None
@@ -363,7 +386,7 @@ def _bind(fn, call, is_method):
     defaults = dict(zip(params[len(params) - len(a.defaults):], a.defaults)) if a.defaults else {}
     for p in params:
         if p not in out:
-            if p in defaults:
+            if p in defaults and not out.get("*" + str(va)):
                 out[p] = defaults[p]
             else:
                 return None
@@ -382,6 +405,17 @@ def _expand(fn, call, is_method, self_expr=None, want_expr=False):
     stored = {n.id for s in list(fn.body) + list(body) for n in ast.walk(s) if isinstance(n, ast.Name) and isinstance(n.ctx, (ast.Store, ast.Del))}
     pre = []
     mapping = {}
+    star, star_pre = {}, []          # (the extra positional arguments are evaluated after the named ones)
+    for p in [p for p in binding if p.startswith("*")]:
+        extras = []
+        for i_, arg in enumerate(binding.pop(p)):
+            if isinstance(arg, (ast.Name, ast.Constant)) or (isinstance(arg, ast.Attribute) and isinstance(arg.value, ast.Name)):
+                extras.append(arg)
+            else:
+                tmp = "%s%d__inl%d" % (p[1:], i_, k)
+                star_pre.append(ast.copy_location(ast.Assign(targets=[ast.Name(id=tmp, ctx=ast.Store())], value=copy.deepcopy(arg)), call))
+                extras.append(ast.Name(id=tmp, ctx=ast.Load()))
+        star[p[1:]] = extras
     for p, arg in binding.items():
         simple = isinstance(arg, (ast.Name, ast.Constant)) or (isinstance(arg, ast.Attribute) and isinstance(arg.value, ast.Name))
         if simple and p not in stored:
@@ -392,6 +426,7 @@ def _expand(fn, call, is_method, self_expr=None, want_expr=False):
             mapping[p] = ast.Name(id=tmp, ctx=ast.Load())
             if p in stored:
                 stored = set(stored)
+    pre.extend(star_pre)
     rename = {n: "%s__inl%d" % (n, k) for n in stored if n not in binding}
     # parameters that are assigned inside the helper behave like locals initialised from the temp
     for p in binding:
@@ -403,6 +438,7 @@ def _expand(fn, call, is_method, self_expr=None, want_expr=False):
         if selfname != "self" or not (isinstance(self_expr, ast.Name) and self_expr.id == "self"):
             mapping[selfname] = self_expr
     sub = _Subst(mapping, rename)
+    sub.star = star
     new_body = [sub.visit(copy.deepcopy(s)) for s in body]
     new_ret = sub.visit(copy.deepcopy(ret)) if ret is not None else None
     for s in pre + new_body:
@@ -456,6 +492,10 @@ class Inliner:
             # `Class._helper(...)`: a private static method is a plain function kept in the class's namespace
             m = self.methods_of(f.value.id).get(f.attr)
             if m is not None and "staticmethod" in _decorators(m):
+                return (m, False, None)
+            # `Class._m(obj, ...)` on a plain method: looked up on the class it is an ordinary function taking `obj` as its first argument
+            if m is not None and not (set(_decorators(m)) & {"classmethod", "property", "staticmethod"}) and call.args \
+                    and not isinstance(call.args[0], ast.Starred):
                 return (m, False, None)
             return None
         if isinstance(f, ast.Name) and f.id in self.funcs:
@@ -817,7 +857,20 @@ def _module_stable_names(tree):
                 cnt[nm] = cnt.get(nm, 0) + 1        # a module-level variable: counted twice so that it is never taken as stable
         for nm in names:
             cnt[nm] = cnt.get(nm, 0) + 1
-    return {nm for nm, c in cnt.items() if c == 1}
+    out = {nm for nm, c in cnt.items() if c == 1}
+    # a module-level name bound once to an immutable literal (number, string, tuple of such) and named in no `global` statement
+    # denotes that one value everywhere: `_MERGE_ATTRS = ("width", "depth")`
+    def immut(v):
+        if isinstance(v, ast.Constant):
+            return True
+        return isinstance(v, ast.Tuple) and all(immut(e) for e in v.elts)
+    globs = {g for n in ast.walk(tree) if isinstance(n, (ast.Global, ast.Nonlocal)) for g in n.names}
+    for n in tree.body:
+        if isinstance(n, ast.Assign) and len(n.targets) == 1 and isinstance(n.targets[0], ast.Name) and immut(n.value):
+            nm = n.targets[0].id
+            if cnt.get(nm) == 2 and nm not in globs:
+                out.add(nm)
+    return out
 
 
 def _copyable(v, stable, stored_attrs, line=None):
@@ -1312,12 +1365,40 @@ def _static_expand(fn, consts):
                 rebinding = names is None or any(isinstance(x, ast.Name) and x.id in names and isinstance(x.ctx, ast.Store) for b in s_.body for x in ast.walk(b))
                 shapes_ok = names is not None and all((len(names) == 1 and isinstance(tg, ast.Name)) or (isinstance(r, ast.Tuple) and len(r.elts) == len(names)) for r in rows)
                 if not rebinding and shapes_ok:
-                    for r in rows:
+                    # a body-local scratch name (assigned before any use in every trip, mentioned nowhere outside the loop) gets its own
+                    # name per copy, so that each copy's `seg = getattr(self, attr)` is a single assignment the later passes can follow
+                    def mentions(node, x):
+                        return any(isinstance(y, ast.Name) and y.id == x for y in ast.walk(node))
+
+                    def dom(block, x):
+                        for b_ in block:
+                            if not mentions(b_, x):
+                                continue
+                            if isinstance(b_, ast.Assign) and len(b_.targets) == 1 and isinstance(b_.targets[0], ast.Name) and b_.targets[0].id == x \
+                                    and not mentions(b_.value, x):
+                                return True
+                            if isinstance(b_, ast.Try) and not any(mentions(h_, x) for h_ in b_.handlers) and not any(mentions(z, x) for z in b_.orelse + b_.finalbody) \
+                                    and not any(mentions(z, x) for z in block[block.index(b_) + 1:]):
+                                return dom(b_.body, x)
+                            return False
+                        return False
+                    inside = sum(1 for b_ in s_.body for y in ast.walk(b_) if isinstance(y, ast.Name))
+                    scratch = []
+                    for x in sorted({y.id for b_ in s_.body for y in ast.walk(b_) if isinstance(y, ast.Name) and isinstance(y.ctx, ast.Store)}):
+                        n_in = sum(1 for b_ in s_.body for y in ast.walk(b_) if isinstance(y, ast.Name) and y.id == x)
+                        n_all = sum(1 for y in ast.walk(fn) if isinstance(y, ast.Name) and y.id == x)
+                        if n_in == n_all and dom(s_.body, x) and not any(isinstance(y, (ast.Global, ast.Nonlocal)) for y in ast.walk(fn)):
+                            scratch.append(x)
+                    for k_, r in enumerate(rows):
                         vals = [r] if isinstance(tg, ast.Name) else list(r.elts)
                         for b in s_.body:
                             nb = copy.deepcopy(b)
                             for nm, val in zip(names, vals):
                                 nb = _ConstSubst(nm, val).visit(nb)
+                            if scratch and len(rows) > 1:
+                                for y in ast.walk(nb):
+                                    if isinstance(y, ast.Name) and y.id in scratch:
+                                        y.id = "%s__u%d" % (y.id, k_)
                             out.append(nb)
                     changed[0] += 1
                     continue
@@ -1738,6 +1819,16 @@ class _FoldDisplays(ast.NodeTransformer):
                         elts.append(S().visit(e))
                     mk = ast.Tuple if c.func.id == "tuple" else ast.List
                     return ast.copy_location(mk(elts=elts, ctx=ast.Load()), c)
+        # list(map(f, xs)) / list(starmap(f, xs)) with f and xs plain names -> [f(x) for x in xs] / [f(*x) for x in xs]
+        if isinstance(c.func, ast.Name) and c.func.id == "list" and len(c.args) == 1 and not c.keywords and isinstance(c.args[0], ast.Call) \
+                and (_dotted_name(c.args[0].func) or "") in ("map", "starmap", "itertools.starmap") and len(c.args[0].args) == 2 and not c.args[0].keywords \
+                and all(isinstance(a, ast.Name) for a in c.args[0].args):
+            f_, xs_ = c.args[0].args
+            var = ast.Name(id="x__map", ctx=ast.Load())
+            arg = var if (_dotted_name(c.args[0].func) or "") == "map" else ast.Starred(value=var, ctx=ast.Load())
+            lc = ast.ListComp(elt=ast.Call(func=f_, args=[arg], keywords=[]),
+                              generators=[ast.comprehension(target=ast.Name(id="x__map", ctx=ast.Store()), iter=xs_, ifs=[], is_async=0)])
+            return ast.fix_missing_locations(ast.copy_location(lc, c))
         # tuple([a, b]) / list((a, b)) / tuple((a, b)) -> the display itself
         if isinstance(c.func, ast.Name) and c.func.id in ("tuple", "list") and len(c.args) == 1 and not c.keywords \
                 and isinstance(c.args[0], (ast.Tuple, ast.List)) and not any(isinstance(e, ast.Starred) for e in c.args[0].elts):
@@ -2622,7 +2713,760 @@ def _unroll_const_tuple_loops(fn):
     return changed[0]
 
 
+_INT_CASTS = ("int", "uint8", "uint16", "uint32", "uint64", "int64", "int32")
+
+
+def _unswitch_loops(fn):
+    """Loop unswitching on a flag the function sets once: with `flag = <expr>` the only store to `flag`,
+        it = A if flag else B            (single use, directly before the loop)
+        for x in it:  [if flag: S1 else: S2 ...]
+    becomes `if flag: for x in A: S1...  else: for x in B: S2...`; a first body statement `a, b = x` (x used nowhere else) moves into
+    the loop target.  The flag is a local name, so neither iterable nor body can change it."""
+    nstores = {}
+    for x in ast.walk(fn):
+        if isinstance(x, ast.Name) and isinstance(x.ctx, (ast.Store, ast.Del)):
+            nstores[x.id] = nstores.get(x.id, 0) + 1
+    params = {a.arg for a in fn.args.args}
+    changed = [0]
+
+    def nuses(name):
+        return sum(1 for x in ast.walk(fn) if isinstance(x, ast.Name) and x.id == name and isinstance(x.ctx, ast.Load))
+
+    def specialise(stmts, flag, val):
+        out = []
+        for b in stmts:
+            if isinstance(b, ast.If) and isinstance(b.test, ast.Name) and b.test.id == flag:
+                out.extend(specialise(b.body if val else b.orelse, flag, val))
+                continue
+            if isinstance(b, ast.If) and isinstance(b.test, ast.UnaryOp) and isinstance(b.test.op, ast.Not) and isinstance(b.test.operand, ast.Name) \
+                    and b.test.operand.id == flag:
+                out.extend(specialise(b.orelse if val else b.body, flag, val))
+                continue
+            b = copy.copy(b)
+            for fld in ("body", "orelse", "finalbody"):
+                blk = getattr(b, fld, None)
+                if isinstance(blk, list) and not isinstance(b, (ast.FunctionDef, ast.ClassDef)):
+                    setattr(b, fld, specialise(blk, flag, val) or ([ast.copy_location(ast.Pass(), b)] if fld == "body" else []))
+            out.append(b)
+        return out
+
+    def fuse_target(loop):
+        tg = loop.target
+        if isinstance(tg, ast.Name) and loop.body and isinstance(loop.body[0], ast.Assign) and len(loop.body[0].targets) == 1 \
+                and isinstance(loop.body[0].targets[0], (ast.Tuple, ast.List)) and isinstance(loop.body[0].value, ast.Name) \
+                and loop.body[0].value.id == tg.id and nstores.get(tg.id) == 1 \
+                and all(isinstance(e, ast.Name) for e in loop.body[0].targets[0].elts) \
+                and loop.own_uses == 1 \
+                and sum(1 for x in ast.walk(fn) if isinstance(x, ast.Name) and x.id == tg.id and isinstance(x.ctx, ast.Load)) == loop.uses_of_target:
+            loop.target = loop.body[0].targets[0]
+            loop.body = loop.body[1:] or [ast.copy_location(ast.Pass(), loop)]
+
+    def block(stmts):
+        out = []
+        for st in stmts:
+            if isinstance(st, (ast.FunctionDef, ast.AsyncFunctionDef, ast.ClassDef)):
+                out.append(st)
+                continue
+            for fld in ("body", "orelse", "finalbody"):
+                blk = getattr(st, fld, None)
+                if isinstance(blk, list):
+                    setattr(st, fld, block(blk))
+            if isinstance(st, ast.Try):
+                for h in st.handlers:
+                    h.body = block(h.body)
+            if isinstance(st, ast.For) and not st.orelse and not any(isinstance(x, (ast.Break,)) for x in ast.walk(st)):
+                it = st.iter
+                prev = out[-1] if out else None
+                via = None
+                if isinstance(it, ast.Name) and isinstance(prev, ast.Assign) and len(prev.targets) == 1 and isinstance(prev.targets[0], ast.Name) \
+                        and prev.targets[0].id == it.id and nstores.get(it.id) == 1 and nuses(it.id) == 1 and isinstance(prev.value, ast.IfExp):
+                    it, via = prev.value, prev
+                # ... or already split into `if flag: it = A  else: it = B`
+                if isinstance(it, ast.Name) and isinstance(prev, ast.If) and isinstance(prev.test, ast.Name) and len(prev.body) == 1 and len(prev.orelse) == 1 \
+                        and all(isinstance(b_, ast.Assign) and len(b_.targets) == 1 and isinstance(b_.targets[0], ast.Name) and b_.targets[0].id == it.id
+                                for b_ in (prev.body[0], prev.orelse[0])) and nstores.get(it.id) == 2 and nuses(it.id) == 1:
+                    it, via = ast.IfExp(test=prev.test, body=prev.body[0].value, orelse=prev.orelse[0].value), prev
+                if isinstance(it, ast.IfExp) and isinstance(it.test, ast.Name) and nstores.get(it.test.id) == 1 and it.test.id not in params:
+                    flag = it.test.id
+                    arms = []
+                    for val, src_ in ((True, it.body), (False, it.orelse)):
+                        lp = ast.copy_location(ast.For(target=copy.deepcopy(st.target), iter=copy.deepcopy(src_),
+                                                       body=specialise(copy.deepcopy(st.body), flag, val) or [ast.copy_location(ast.Pass(), st)],
+                                                       orelse=[], type_comment=None), st)
+                        lp.uses_of_target = sum(1 for x in ast.walk(lp) if isinstance(x, ast.Name) and isinstance(st.target, ast.Name)
+                                                and x.id == st.target.id and isinstance(x.ctx, ast.Load))
+                        arms.append(lp)
+                    # the original loop is replaced by two: uses of the loop variable are now counted per arm
+                    tot = sum(a.uses_of_target for a in arms)
+                    for a in arms:
+                        a.own_uses = a.uses_of_target
+                        a.uses_of_target = tot
+                    if via is not None:
+                        out.pop()
+                    node = ast.copy_location(ast.If(test=ast.copy_location(ast.Name(id=flag, ctx=ast.Load()), st), body=[arms[0]], orelse=[arms[1]]), st)
+                    # (after the replacement the function holds the two arms, not the original loop)
+                    out.append(node)
+                    pending.append(arms)
+                    changed[0] += 1
+                    continue
+            out.append(st)
+        return out
+    pending = []
+    fn.body = block(fn.body)
+    for arms in pending:
+        if isinstance(arms[0].target, ast.Name):
+            nstores[arms[0].target.id] = 1
+        for a in arms:
+            fuse_target(a)
+    if changed[0]:
+        ast.fix_missing_locations(fn)
+    return changed[0]
+
+
+def _drop_bool_flags(fn):
+    """`flag = bool(p)` (the only store to `flag`; `p` a parameter the function never rebinds) with `flag` read only where a truth
+    value is taken -- the test of if/while/conditional expression, under `not`, as an operand of and/or in such a position: every such
+    read becomes `p`.  (In those positions bool(p) and p decide alike; a mutable `p` could change its truth value between the flag's
+    definition and a later use, so only None/tuple/dict-style option parameters qualify: `p` must not be written through -- no
+    subscript store, no method call on it -- anywhere in the function.)"""
+    params = {a.arg for a in fn.args.args + fn.args.kwonlyargs}
+    stores = {}
+    for x in ast.walk(fn):
+        if isinstance(x, ast.Name) and isinstance(x.ctx, (ast.Store, ast.Del)):
+            stores[x.id] = stores.get(x.id, 0) + 1
+    flags = {}
+    for st in fn.body:
+        if isinstance(st, ast.Assign) and len(st.targets) == 1 and isinstance(st.targets[0], ast.Name) and stores.get(st.targets[0].id) == 1 \
+                and isinstance(st.value, ast.Call) and isinstance(st.value.func, ast.Name) and st.value.func.id == "bool" and len(st.value.args) == 1 \
+                and not st.value.keywords and isinstance(st.value.args[0], ast.Name) and st.value.args[0].id in params and st.value.args[0].id not in stores:
+            flags[st.targets[0].id] = st.value.args[0].id
+    if not flags:
+        return 0
+    # the parameter is never written through
+    for x in ast.walk(fn):
+        if isinstance(x, ast.Subscript) and isinstance(x.ctx, (ast.Store, ast.Del)) and isinstance(x.value, ast.Name):
+            flags = {f: p_ for f, p_ in flags.items() if p_ != x.value.id}
+        if isinstance(x, ast.Call) and isinstance(x.func, ast.Attribute) and isinstance(x.func.value, ast.Name) and x.func.attr in (
+                "append", "extend", "insert", "pop", "clear", "update", "setdefault", "remove", "popitem", "add", "discard"):
+            flags = {f: p_ for f, p_ in flags.items() if p_ != x.func.value.id}
+    if not flags:
+        return 0
+    truthpos = set()
+
+    def mark(e):
+        truthpos.add(id(e))
+        if isinstance(e, ast.BoolOp):
+            for v in e.values:
+                mark(v)
+        elif isinstance(e, ast.UnaryOp) and isinstance(e.op, ast.Not):
+            mark(e.operand)
+    for x in ast.walk(fn):
+        if isinstance(x, (ast.If, ast.While, ast.IfExp)):
+            mark(x.test)
+        elif isinstance(x, ast.UnaryOp) and isinstance(x.op, ast.Not):
+            mark(x.operand)
+    ok = {f for f in flags if all(id(x) in truthpos for x in ast.walk(fn) if isinstance(x, ast.Name) and x.id == f and isinstance(x.ctx, ast.Load))}
+    if not ok:
+        return 0
+    n = 0
+    for x in ast.walk(fn):
+        if isinstance(x, ast.Name) and isinstance(x.ctx, ast.Load) and x.id in ok:
+            x.id = flags[x.id]
+            n += 1
+    return n
+
+
+def _fold_flag_chains(fn):
+    """`x = A` directly followed by `if not x: x = B` is `x = A or B`; by `if x: x = B` it is `x = A and B` (the value, not only the
+    truth value, is the same: `or` yields A when A is truthy and B otherwise).  Applied repeatedly, a flag built up step by step
+    becomes the one boolean expression it computes."""
+    changed = [0]
+
+    def block(stmts):
+        out = []
+        for st in stmts:
+            if isinstance(st, (ast.FunctionDef, ast.AsyncFunctionDef, ast.ClassDef)):
+                out.append(st)
+                continue
+            for fld in ("body", "orelse", "finalbody"):
+                blk = getattr(st, fld, None)
+                if isinstance(blk, list):
+                    setattr(st, fld, block(blk))
+            if isinstance(st, ast.Try):
+                for h in st.handlers:
+                    h.body = block(h.body)
+            prev = out[-1] if out else None
+            if isinstance(st, ast.If) and not st.orelse and len(st.body) == 1 and isinstance(prev, ast.Assign) and len(prev.targets) == 1 \
+                    and isinstance(prev.targets[0], ast.Name):
+                x = prev.targets[0].id
+                t = st.test
+                neg = isinstance(t, ast.UnaryOp) and isinstance(t.op, ast.Not)
+                tn = t.operand if neg else t
+                b = st.body[0]
+                if isinstance(tn, ast.Name) and tn.id == x and isinstance(b, ast.Assign) and len(b.targets) == 1 and isinstance(b.targets[0], ast.Name) \
+                        and b.targets[0].id == x and not any(isinstance(y, ast.Name) and y.id == x for y in ast.walk(b.value)) \
+                        and not any(isinstance(y, (ast.NamedExpr, ast.Yield, ast.Await)) for y in ast.walk(b.value)):
+                    op = ast.Or() if neg else ast.And()
+                    vals = (list(prev.value.values) if isinstance(prev.value, ast.BoolOp) and isinstance(prev.value.op, type(op)) else [prev.value]) + [b.value]
+                    prev.value = ast.copy_location(ast.BoolOp(op=op, values=vals), prev.value)
+                    changed[0] += 1
+                    continue
+            out.append(st)
+        return out
+    fn.body = block(fn.body)
+    if changed[0]:
+        ast.fix_missing_locations(fn)
+    return changed[0]
+
+
+def _fuse_loop_unpack(fn):
+    """`for item in X: a, b = item; BODY` with `item` read nowhere else and bound by nothing else  ->  `for a, b in X: BODY`."""
+    loads, stores = {}, {}
+    for x in ast.walk(fn):
+        if isinstance(x, ast.Name):
+            d = loads if isinstance(x.ctx, ast.Load) else stores
+            d[x.id] = d.get(x.id, 0) + 1
+    n = 0
+    for lp in [x for x in ast.walk(fn) if isinstance(x, ast.For)]:
+        tg = lp.target
+        if isinstance(tg, ast.Name) and lp.body and isinstance(lp.body[0], ast.Assign) and len(lp.body[0].targets) == 1 \
+                and isinstance(lp.body[0].targets[0], (ast.Tuple, ast.List)) and all(isinstance(e, ast.Name) for e in lp.body[0].targets[0].elts) \
+                and isinstance(lp.body[0].value, ast.Name) and lp.body[0].value.id == tg.id and loads.get(tg.id) == 1 and stores.get(tg.id) == 1:
+            lp.target = lp.body[0].targets[0]
+            lp.body = lp.body[1:] or [ast.copy_location(ast.Pass(), lp)]
+            n += 1
+    return n
+
+
+def _sink_store_into_arms(fn):
+    """Kernel: `if c1: ...; t = A  elif c2: ...; t = B  else: ...; t = C` directly followed by `ARR[i, j] = t`, with `t` mentioned nowhere
+    else and no arm storing a name the subscript reads: the store moves into the arms (`ARR[i, j] = A` ...), the shape in which the
+    kernels originally write their case analysis."""
+    changed = [0]
+
+    def leaves(node, t):
+        """the final `t = expr` assignment of every leaf arm, or None"""
+        out = []
+        for arm in (node.body, node.orelse):
+            if not arm:
+                return None
+            last = arm[-1]
+            if isinstance(last, ast.If):
+                sub = leaves(last, t)
+                if sub is None:
+                    return None
+                out.extend(sub)
+            elif isinstance(last, ast.Assign) and len(last.targets) == 1 and isinstance(last.targets[0], ast.Name) and last.targets[0].id == t:
+                out.append((arm, last))
+            else:
+                return None
+        return out
+
+    def block(stmts):
+        out = []
+        for st in stmts:
+            if isinstance(st, (ast.FunctionDef, ast.AsyncFunctionDef, ast.ClassDef)):
+                out.append(st)
+                continue
+            for fld in ("body", "orelse", "finalbody"):
+                blk = getattr(st, fld, None)
+                if isinstance(blk, list):
+                    setattr(st, fld, block(blk))
+            prev = out[-1] if out else None
+            if isinstance(st, ast.Assign) and len(st.targets) == 1 and isinstance(st.targets[0], ast.Subscript) and isinstance(st.value, ast.Name) \
+                    and isinstance(prev, ast.If):
+                t = st.value.id
+                lv = leaves(prev, t)
+                n_all = sum(1 for x in ast.walk(fn) if isinstance(x, ast.Name) and x.id == t)
+                idx_names = {x.id for x in ast.walk(st.targets[0]) if isinstance(x, ast.Name)}
+                arm_stores = {x.id for x in ast.walk(prev) if isinstance(x, ast.Name) and isinstance(x.ctx, (ast.Store, ast.Del))} - {t}
+                writes_arr = any(isinstance(x, ast.Subscript) and isinstance(x.ctx, ast.Store) for x in ast.walk(prev))
+                if lv and n_all == len(lv) + 1 and not (idx_names & arm_stores) and not writes_arr and t not in idx_names:
+                    for arm, last in lv:
+                        arm[arm.index(last)] = ast.copy_location(ast.Assign(targets=[copy.deepcopy(st.targets[0])], value=last.value), last)
+                    changed[0] += 1
+                    continue
+            out.append(st)
+        return out
+    fn.body = block(fn.body)
+    if changed[0]:
+        ast.fix_missing_locations(fn)
+    return changed[0]
+
+
+def _split_bool_casts(fn):
+    """Kernel statement `t = e + uintN(flag)` where `flag` is a local bound once to a comparison / `not` / and-or of such: the cast of
+    a boolean is 1 or 0, so the statement is `if flag: t = e + uintN(1) else: t = e + uintN(0)` -- the two-way choice the walkers read."""
+    nstores, defs = {}, {}
+    for x in ast.walk(fn):
+        if isinstance(x, ast.Name) and isinstance(x.ctx, (ast.Store, ast.Del)):
+            nstores[x.id] = nstores.get(x.id, 0) + 1
+        if isinstance(x, ast.Assign) and len(x.targets) == 1 and isinstance(x.targets[0], ast.Name):
+            defs[x.targets[0].id] = x.value
+
+    def booly(v, depth=0):
+        if depth > 4:
+            return False
+        if isinstance(v, ast.Compare):
+            return True
+        if isinstance(v, ast.UnaryOp) and isinstance(v.op, ast.Not):
+            return True
+        if isinstance(v, ast.BoolOp):
+            return all(booly(y, depth + 1) for y in v.values)
+        if isinstance(v, ast.Name):
+            return nstores.get(v.id) == 1 and v.id in defs and booly(defs[v.id], depth + 1)
+        return False
+    changed = [0]
+
+    def casts_of(st):
+        return [c for c in ast.walk(st) if isinstance(c, ast.Call) and len(c.args) == 1 and not c.keywords
+                and (_dotted_name(c.func) or "").split(".")[-1] in _INT_CASTS and isinstance(c.args[0], ast.Name) and booly(c.args[0])]
+
+    def block(stmts):
+        out = []
+        for st in stmts:
+            if isinstance(st, (ast.FunctionDef, ast.AsyncFunctionDef, ast.ClassDef)):
+                out.append(st)
+                continue
+            for fld in ("body", "orelse", "finalbody"):
+                blk = getattr(st, fld, None)
+                if isinstance(blk, list):
+                    setattr(st, fld, block(blk))
+            if isinstance(st, ast.Assign):
+                cs = casts_of(st)
+                if len(cs) == 1:
+                    flag = cs[0].args[0].id
+                    arms = []
+                    for val in (1, 0):
+                        cp = copy.deepcopy(st)
+                        for c in ast.walk(cp):
+                            if isinstance(c, ast.Call) and len(c.args) == 1 and isinstance(c.args[0], ast.Name) and c.args[0].id == flag \
+                                    and (_dotted_name(c.func) or "").split(".")[-1] in _INT_CASTS:
+                                c.args[0] = ast.copy_location(ast.Constant(value=val), c.args[0])
+                        arms.append(cp)
+                    out.append(ast.copy_location(ast.If(test=ast.copy_location(ast.Name(id=flag, ctx=ast.Load()), st), body=[arms[0]], orelse=[arms[1]]), st))
+                    changed[0] += 1
+                    continue
+            out.append(st)
+        return out
+    fn.body = block(fn.body)
+    if changed[0]:
+        ast.fix_missing_locations(fn)
+    return changed[0]
+
+
+def _trip_counter_loops(fn):
+    """Kernel loops driven by a pure trip counter, brought to the range form the walkers read:
+      (1) `while t > 0: BODY; t -= 1` where BODY never reads `t`, nothing reads `t` after the loop and there is no break/continue
+          ->  `for t__trip in range(t): BODY`          (the loop runs `t` times; `t` is dead afterwards)
+      (2) `a = 0` ... `for v in range(E): BODY; a += 1` where BODY never reads `v`, `a` is stored nowhere else, nothing between the
+          initialisation and the loop stores `a`, nothing reads `a` after the loop and there is no break/continue
+          ->  `for a in range(E): BODY`                (`a` is the index of the trip)
+    """
+    changed = [0]
+
+    def strip(e):
+        while isinstance(e, ast.Call) and len(e.args) == 1 and not e.keywords and (_dotted_name(e.func) or "").split(".")[-1] in _INT_CASTS:
+            e = e.args[0]
+        return e
+
+    def const_of(e):
+        e = strip(e)
+        return e.value if isinstance(e, ast.Constant) and isinstance(e.value, int) and not isinstance(e.value, bool) else None
+
+    def step_of(st, var):
+        """+1 / -1 when `st` is `var += 1` / `var = var - 1` ...; None otherwise"""
+        if isinstance(st, ast.AugAssign) and isinstance(st.target, ast.Name) and st.target.id == var and const_of(st.value) == 1:
+            return 1 if isinstance(st.op, ast.Add) else -1 if isinstance(st.op, ast.Sub) else None
+        if isinstance(st, ast.Assign) and len(st.targets) == 1 and isinstance(st.targets[0], ast.Name) and st.targets[0].id == var \
+                and isinstance(st.value, ast.BinOp) and isinstance(st.value.op, (ast.Add, ast.Sub)):
+            l, r = st.value.left, st.value.right
+            if isinstance(l, ast.Name) and l.id == var and const_of(r) == 1:
+                return 1 if isinstance(st.value.op, ast.Add) else -1
+            if isinstance(r, ast.Name) and r.id == var and const_of(l) == 1 and isinstance(st.value.op, ast.Add):
+                return 1
+        return None
+
+    def reads(nodes, var):
+        return any(isinstance(x, ast.Name) and x.id == var and isinstance(x.ctx, ast.Load) for n in nodes for x in ast.walk(n))
+
+    def stores(nodes, var):
+        return any(isinstance(x, ast.Name) and x.id == var and isinstance(x.ctx, (ast.Store, ast.Del)) for n in nodes for x in ast.walk(n))
+
+    def positive_test(t):
+        """name tested `> 0` / `!= 0` / `>= 1` / `0 <` ..."""
+        if isinstance(t, ast.Compare) and len(t.ops) == 1:
+            l, op, r = t.left, t.ops[0], t.comparators[0]
+            if isinstance(l, ast.Name) and ((isinstance(op, (ast.Gt, ast.NotEq)) and const_of(r) == 0) or (isinstance(op, ast.GtE) and const_of(r) == 1)):
+                return l.id
+            if isinstance(r, ast.Name) and ((isinstance(op, (ast.Lt, ast.NotEq)) and const_of(l) == 0) or (isinstance(op, ast.LtE) and const_of(l) == 1)):
+                return r.id
+        return None
+
+    def block(stmts, after_outer):
+        out = list(stmts)
+        for i, st in enumerate(out):
+            if isinstance(st, (ast.FunctionDef, ast.AsyncFunctionDef, ast.ClassDef)):
+                continue
+            rest = out[i + 1:] + after_outer
+            for fld in ("body", "orelse", "finalbody"):
+                blk = getattr(st, fld, None)
+                if isinstance(blk, list):
+                    # statements of a loop body are followed by the loop itself (next trip) as well as by what follows the loop
+                    setattr(st, fld, block(blk, ([st] if isinstance(st, (ast.For, ast.While)) else []) + rest))
+            if isinstance(st, ast.While) and not st.orelse and not any(isinstance(x, (ast.Break, ast.Continue)) for x in ast.walk(st)):
+                t = positive_test(st.test)
+                if t is not None:
+                    decs = [b for b in st.body if step_of(b, t) == -1]
+                    others = [b for b in st.body if b not in decs]
+                    if len(decs) == 1 and not reads(others, t) and not stores(others, t) and not reads(rest, t):
+                        out[i] = ast.copy_location(ast.For(target=ast.Name(id=t + "__trip", ctx=ast.Store()),
+                                                           iter=ast.Call(func=ast.Name(id="range", ctx=ast.Load()), args=[ast.Name(id=t, ctx=ast.Load())], keywords=[]),
+                                                           body=others or [ast.copy_location(ast.Pass(), st)], orelse=[], type_comment=None), st)
+                        st = out[i]
+                        changed[0] += 1
+            if isinstance(st, ast.For) and not st.orelse and isinstance(st.target, ast.Name) and isinstance(st.iter, ast.Call) \
+                    and isinstance(st.iter.func, ast.Name) and st.iter.func.id == "range" and len(st.iter.args) == 1 and not st.iter.keywords \
+                    and not any(isinstance(x, (ast.Break, ast.Continue)) for x in ast.walk(st)) and not reads(st.body, st.target.id) \
+                    and not reads(rest, st.target.id):
+                cands = [b for b in st.body if isinstance(b, (ast.Assign, ast.AugAssign))]
+                for b in cands:
+                    a = b.target.id if isinstance(b, ast.AugAssign) and isinstance(b.target, ast.Name) else \
+                        b.targets[0].id if isinstance(b, ast.Assign) and len(b.targets) == 1 and isinstance(b.targets[0], ast.Name) else None
+                    if a is None or step_of(b, a) != 1:
+                        continue
+                    others = [x for x in st.body if x is not b]
+                    if stores(others, a) or reads(st.body[st.body.index(b) + 1:], a) or reads(rest, a) or reads([st.iter], a):
+                        continue
+                    # initialised to 0 by the nearest earlier sibling that stores it, and not read in between
+                    init = None
+                    for j in range(i - 1, -1, -1):
+                        if stores([out[j]], a):
+                            if isinstance(out[j], ast.Assign) and len(out[j].targets) == 1 and isinstance(out[j].targets[0], ast.Name) and const_of(out[j].value) == 0:
+                                init = j
+                            break
+                        if reads([out[j]], a):
+                            break
+                    if init is None:
+                        continue
+                    st.target = ast.copy_location(ast.Name(id=a, ctx=ast.Store()), st.target)
+                    st.body = others or [ast.copy_location(ast.Pass(), st)]
+                    changed[0] += 1
+                    break
+        return out
+    fn.body = block(fn.body, [])
+    if changed[0]:
+        ast.fix_missing_locations(fn)
+    return changed[0]
+
+
+def _inline_local_consts(fn):
+    """Kernel locals that only name a constant (`zero = uint64(0)`; one store in the whole function, a top-level statement of its body
+    that precedes every use): each use is replaced by the same cast-of-constant expression.  The store stays (dead)."""
+    nstores, first_load = {}, {}
+    for x in ast.walk(fn):
+        if isinstance(x, ast.Name):
+            if isinstance(x.ctx, (ast.Store, ast.Del)):
+                nstores[x.id] = nstores.get(x.id, 0) + 1
+            else:
+                pos = (x.lineno, x.col_offset)
+                if x.id not in first_load or pos < first_load[x.id]:
+                    first_load[x.id] = pos
+    params = {a.arg for a in fn.args.args}
+    consts = {}
+    for st in fn.body:
+        if isinstance(st, ast.Assign) and len(st.targets) == 1 and isinstance(st.targets[0], ast.Name):
+            nm = st.targets[0].id
+            v = st.value
+            inner = v
+            depth = 0
+            while isinstance(inner, ast.Call) and len(inner.args) == 1 and not inner.keywords and (_dotted_name(inner.func) or "").split(".")[-1] in _INT_CASTS + ("float64", "float32", "float"):
+                inner = inner.args[0]
+                depth += 1
+            if nstores.get(nm) == 1 and nm not in params and depth <= 2 and isinstance(inner, ast.Constant) and isinstance(inner.value, (int, float)) \
+                    and not isinstance(inner.value, bool) and first_load.get(nm, (10 ** 9, 0)) > (st.end_lineno, st.end_col_offset):
+                consts[nm] = v
+    if not consts:
+        return 0
+
+    class _S(ast.NodeTransformer):
+        def visit_Name(self, x):
+            if isinstance(x.ctx, ast.Load) and x.id in consts:
+                return ast.copy_location(copy.deepcopy(consts[x.id]), x)
+            return x
+    _S().visit(fn)
+    ast.fix_missing_locations(fn)
+    return len(consts)
+
+
+def _unroll_const_whiles(fn):
+    """`v = K; ...; while v <cmp> C: BODY; v = f(v)` where K, C are small non-negative integer constants (possibly under an integer
+    cast), `v` is stored only by the initialisation and by the LAST statement of the body, f is built from v, constants and
+    >> << // * + - and the loop has no break/continue/else: the trip sequence is a compile-time constant, so the body is repeated
+    with `v` replaced by its value (under the cast the initialisation used).  At most 16 trips; otherwise untouched."""
+    changed = [0]
+
+    def strip(e):
+        cast = None
+        while isinstance(e, ast.Call) and len(e.args) == 1 and not e.keywords and (_dotted_name(e.func) or "").split(".")[-1] in _INT_CASTS:
+            cast = cast or e.func
+            e = e.args[0]
+        return e, cast
+
+    # local names for small constants (`two = uint64(2)`): one store in the whole function, at its top level
+    nstores = {}
+    for x in ast.walk(fn):
+        if isinstance(x, ast.Name) and isinstance(x.ctx, (ast.Store, ast.Del)):
+            nstores[x.id] = nstores.get(x.id, 0) + 1
+    params = {a.arg for a in fn.args.args}
+    local_consts = {}
+    for st in fn.body:
+        if isinstance(st, ast.Assign) and len(st.targets) == 1 and isinstance(st.targets[0], ast.Name) and nstores.get(st.targets[0].id) == 1 \
+                and st.targets[0].id not in params:
+            k_, _c = strip(st.value)
+            if isinstance(k_, ast.Constant) and isinstance(k_.value, int) and not isinstance(k_.value, bool) and 0 <= k_.value < 2 ** 32:
+                local_consts[st.targets[0].id] = k_.value
+
+    def ev(e, var, val):
+        e, _ = strip(e)
+        if isinstance(e, ast.Constant) and isinstance(e.value, int) and not isinstance(e.value, bool):
+            return e.value
+        if isinstance(e, ast.Name) and e.id == var:
+            return val
+        if isinstance(e, ast.Name) and e.id in local_consts:
+            return local_consts[e.id]
+        if isinstance(e, ast.BinOp):
+            l, r = ev(e.left, var, val), ev(e.right, var, val)
+            if l is None or r is None:
+                return None
+            try:
+                if isinstance(e.op, ast.RShift): return l >> r
+                if isinstance(e.op, ast.LShift): return l << r if r < 64 else None
+                if isinstance(e.op, ast.FloorDiv): return l // r if r > 0 else None
+                if isinstance(e.op, ast.Mult): return l * r
+                if isinstance(e.op, ast.Add): return l + r
+                if isinstance(e.op, ast.Sub): return l - r
+            except Exception:
+                return None
+        return None
+
+    def test(t, var, val):
+        if not (isinstance(t, ast.Compare) and len(t.ops) == 1):
+            return None
+        l, r = ev(t.left, var, val), ev(t.comparators[0], var, val)
+        if l is None or r is None:
+            return None
+        op = t.ops[0]
+        for k, f in ((ast.Lt, l < r), (ast.LtE, l <= r), (ast.Gt, l > r), (ast.GtE, l >= r), (ast.NotEq, l != r), (ast.Eq, l == r)):
+            if isinstance(op, k):
+                return f
+        return None
+
+    def stores(node, var):
+        return any(isinstance(x, ast.Name) and x.id == var and isinstance(x.ctx, (ast.Store, ast.Del)) for x in ast.walk(node))
+
+    def block(stmts):
+        out = []
+        for s in stmts:
+            if isinstance(s, (ast.FunctionDef, ast.AsyncFunctionDef, ast.ClassDef)):
+                out.append(s)
+                continue
+            for fld in ("body", "orelse", "finalbody"):
+                if hasattr(s, fld) and isinstance(getattr(s, fld), list):
+                    setattr(s, fld, block(getattr(s, fld)))
+            done = False
+            if isinstance(s, ast.While) and not s.orelse and len(s.body) >= 1 and isinstance(s.test, ast.Compare) \
+                    and not any(isinstance(x, (ast.Break, ast.Continue, ast.Return)) for x in ast.walk(s)):
+                names = [x.id for x in ast.walk(s.test) if isinstance(x, ast.Name) and (_dotted_name(x) or "") not in _INT_CASTS and x.id not in local_consts]
+                last = s.body[-1]
+                if len(set(names)) == 1 and isinstance(last, (ast.Assign, ast.AugAssign)):
+                    var = names[0]
+                    upd = None
+                    if isinstance(last, ast.Assign) and len(last.targets) == 1 and isinstance(last.targets[0], ast.Name) and last.targets[0].id == var:
+                        upd = last.value
+                    elif isinstance(last, ast.AugAssign) and isinstance(last.target, ast.Name) and last.target.id == var:
+                        upd = ast.BinOp(left=ast.Name(id=var, ctx=ast.Load()), op=last.op, right=last.value)
+                    init = None
+                    for p in reversed(out):
+                        if isinstance(p, ast.Assign) and len(p.targets) == 1 and isinstance(p.targets[0], ast.Name) and p.targets[0].id == var:
+                            init = p
+                            break
+                        if stores(p, var):
+                            break
+                    if upd is not None and init is not None and not any(stores(b, var) for b in s.body[:-1]):
+                        k0, cast = strip(init.value)
+                        val = k0.value if isinstance(k0, ast.Constant) and isinstance(k0.value, int) and not isinstance(k0.value, bool) else None
+                        seq = []
+                        while val is not None and 0 <= val < 2 ** 62 and len(seq) <= 16:
+                            t = test(s.test, var, val)
+                            if t is None:
+                                val = None
+                                break
+                            if not t:
+                                break
+                            seq.append(val)
+                            val = ev(upd, var, val)
+                        if val is not None and 0 <= val < 2 ** 62 and len(seq) <= 16:
+                            def lit(v):
+                                c = ast.Constant(value=v)
+                                return ast.Call(func=copy.deepcopy(cast), args=[c], keywords=[]) if cast is not None else c
+                            for v in seq:
+                                for b in s.body[:-1]:
+                                    out.append(ast.fix_missing_locations(ast.copy_location(_ConstSubst(var, lit(v)).visit(copy.deepcopy(b)), b)))
+                            out.append(ast.fix_missing_locations(ast.copy_location(ast.Assign(targets=[ast.Name(id=var, ctx=ast.Store())], value=lit(val)), s)))
+                            changed[0] += 1
+                            done = True
+            if not done:
+                out.append(s)
+        return out
+    fn.body = block(fn.body)
+    return changed[0]
+
+
+def _resolve_explicit_class_attrs(tree):
+    """`Class.NAME` with the class named explicitly (what an inlined helper's `sketch_cls.NAME` becomes): the value bound to NAME in
+    that class's body, or in the nearest base of a single-inheritance chain inside the module -- a literal or a dotted name such as
+    `np.uint32` -- when nothing in the module ever stores to an attribute called NAME."""
+    classes = {c.name: c for c in tree.body if isinstance(c, ast.ClassDef)}
+    stored = {n.attr for n in ast.walk(tree) if isinstance(n, ast.Attribute) and isinstance(n.ctx, (ast.Store, ast.Del))}
+    for c in ast.walk(tree):
+        if isinstance(c, ast.Call) and isinstance(c.func, ast.Name) and c.func.id in ("setattr", "delattr"):
+            if len(c.args) >= 2 and isinstance(c.args[1], ast.Constant):
+                stored.add(c.args[1].value)
+            else:
+                return 0
+
+    def binding(cname, attr, seen=()):
+        c = classes.get(cname)
+        if c is None or cname in seen:
+            return None
+        found = [st for st in c.body if isinstance(st, ast.Assign) and any(isinstance(t, ast.Name) and t.id == attr for t in st.targets)]
+        if len(found) == 1 and len(found[0].targets) == 1:
+            return found[0].value
+        if found or any(isinstance(st, (ast.FunctionDef, ast.ClassDef)) and st.name == attr for st in c.body):
+            return None
+        if len(c.bases) == 1 and isinstance(c.bases[0], ast.Name):
+            return binding(c.bases[0].id, attr, seen + (cname,))
+        return None
+
+    def ok_value(v):
+        if isinstance(v, ast.Constant) and isinstance(v.value, (str, int, float)) and not isinstance(v.value, bool):
+            return True
+        d = _dotted_name(v)
+        return d is not None and d.split(".")[0] in ("np", "numpy")
+    count = [0]
+
+    class T(ast.NodeTransformer):
+        def visit_Attribute(self, a):
+            self.generic_visit(a)
+            if isinstance(a.ctx, ast.Load) and isinstance(a.value, ast.Name) and a.value.id in classes and a.attr not in stored \
+                    and not a.attr.startswith("__"):
+                v = binding(a.value.id, a.attr)
+                if v is not None and ok_value(v):
+                    count[0] += 1
+                    return ast.copy_location(copy.deepcopy(v), a)
+            return a
+    for fn_ in ast.walk(tree):
+        if isinstance(fn_, ast.FunctionDef):
+            # a local / parameter that shadows the class name disqualifies the function
+            names = {x.id for x in ast.walk(fn_) if isinstance(x, ast.Name) and isinstance(x.ctx, (ast.Store, ast.Del))} | {a.arg for a in fn_.args.args}
+            if names & set(classes):
+                continue
+            T().visit(fn_)
+    return count[0]
+
+
+def _priming_read_loops(tree):
+    """The read-ahead loop  `x = E; while x <cmp> K: BODY; x = E`  (the same expression primes the loop and ends every trip; BODY has
+    no `continue` and does not store `x`)  is  `while True: x = E; if not (x <cmp> K): break; BODY`: E is evaluated at the same
+    moments and the test sees the same values."""
+    n = [0]
+
+    def block(stmts):
+        out = []
+        for st in stmts:
+            if isinstance(st, (ast.FunctionDef, ast.AsyncFunctionDef, ast.ClassDef)):
+                st.body = block(st.body)
+                out.append(st)
+                continue
+            for fld in ("body", "orelse", "finalbody"):
+                blk = getattr(st, fld, None)
+                if isinstance(blk, list):
+                    setattr(st, fld, block(blk))
+            if isinstance(st, ast.Try):
+                for h in st.handlers:
+                    h.body = block(h.body)
+            prev = out[-1] if out else None
+            if isinstance(st, ast.While) and not st.orelse and len(st.body) >= 2 and isinstance(prev, ast.Assign) and len(prev.targets) == 1 \
+                    and isinstance(prev.targets[0], ast.Name) and isinstance(st.body[-1], ast.Assign) \
+                    and ast.dump(st.body[-1]) == ast.dump(prev) and isinstance(prev.value, ast.Call):
+                x = prev.targets[0].id
+                t = st.test
+                reads_x = isinstance(t, ast.Compare) and isinstance(t.left, ast.Name) and t.left.id == x and \
+                    all(isinstance(c, ast.Constant) for c in t.comparators)
+                reads_x = reads_x or (isinstance(t, ast.Name) and t.id == x)
+                body = st.body[:-1]
+                own_continue = False
+                stack = list(body)
+                while stack:
+                    b = stack.pop()
+                    if isinstance(b, ast.Continue):
+                        own_continue = True
+                    if isinstance(b, (ast.For, ast.While, ast.FunctionDef, ast.ClassDef)):
+                        continue
+                    stack.extend(ast.iter_child_nodes(b))
+                stores_x = any(isinstance(y, ast.Name) and y.id == x and isinstance(y.ctx, (ast.Store, ast.Del)) for b in body for y in ast.walk(b))
+                if reads_x and not own_continue and not stores_x:
+                    out.pop()
+                    stop = ast.copy_location(ast.UnaryOp(op=ast.Not(), operand=t), t)
+                    st.test = ast.copy_location(ast.Constant(value=True), t)
+                    st.body = [prev, ast.copy_location(ast.If(test=stop, body=[ast.copy_location(ast.Break(), st)], orelse=[]), st)] + body
+                    n[0] += 1
+            out.append(st)
+        return out
+    tree.body = block(tree.body)
+    if n[0]:
+        ast.fix_missing_locations(tree)
+    return n[0]
+
+
+def _desugar_walrus_whiles(tree):
+    """`while (x := E) <cmp> K: BODY`  ->  `while True: x = E; if not (x <cmp> K): break; BODY` -- the assignment expression is the
+    first thing the test evaluates (the test itself, or the left operand of its one comparison), so every trip, including the one
+    that ends the loop and those begun by `continue`, binds `x` and then decides; no `else` clause."""
+    n = 0
+    for w in [x for x in ast.walk(tree) if isinstance(x, ast.While)]:
+        if w.orelse:
+            continue
+        t = w.test
+        neg = False
+        if isinstance(t, ast.UnaryOp) and isinstance(t.op, ast.Not):
+            t, neg = t.operand, True
+        ne = t if isinstance(t, ast.NamedExpr) else t.left if isinstance(t, ast.Compare) and isinstance(t.left, ast.NamedExpr) else None
+        if ne is None or not isinstance(ne.target, ast.Name) or sum(1 for x in ast.walk(w.test) if isinstance(x, ast.NamedExpr)) != 1:
+            continue
+        load = ast.copy_location(ast.Name(id=ne.target.id, ctx=ast.Load()), ne)
+        if t is ne:
+            t2 = load
+        else:
+            t2 = ast.copy_location(ast.Compare(left=load, ops=t.ops, comparators=t.comparators), t)
+        stop = t2 if neg else ast.copy_location(ast.UnaryOp(op=ast.Not(), operand=t2), t2)
+        bind = ast.copy_location(ast.Assign(targets=[ast.Name(id=ne.target.id, ctx=ast.Store())], value=ne.value), w)
+        brk = ast.copy_location(ast.If(test=stop, body=[ast.copy_location(ast.Break(), w)], orelse=[]), w)
+        w.test = ast.copy_location(ast.Constant(value=True), w.test)
+        w.body = [bind, brk] + w.body
+        n += 1
+    if n:
+        ast.fix_missing_locations(tree)
+    return n
+
+
 def normalize(tree):
+    _desugar_walrus_whiles(tree)
+    _priming_read_loops(tree)
+    for fn_ in ast.walk(tree):
+        if isinstance(fn_, ast.FunctionDef):
+            _fold_flag_chains(fn_)
     _hoist_class_constants(tree)
     _MODULE_STABLE.clear()
     _MODULE_STABLE.update(_module_stable_names(tree))
@@ -2641,8 +3485,38 @@ def normalize(tree):
         if isinstance(fn_, ast.FunctionDef):
             _merge_dict_item_stores(fn_.body)
     _FoldDisplays().visit(tree)
+    # `x = helper(...) if c else None` -> if/else before inlining, so that the helper call is a statement of its own arm
+    def _pre_split(stmts):
+        out = []
+        for s_ in stmts:
+            if isinstance(s_, (ast.ClassDef,)):
+                s_.body = _pre_split(s_.body)
+                out.append(s_)
+                continue
+            if isinstance(s_, ast.FunctionDef):
+                if not _is_njit(s_):
+                    s_.body = _pre_split(s_.body)
+                out.append(s_)
+                continue
+            for fld in ("body", "orelse", "finalbody"):
+                blk = getattr(s_, fld, None)
+                if isinstance(blk, list):
+                    setattr(s_, fld, _pre_split(blk))
+            if isinstance(s_, ast.Try):
+                for h_ in s_.handlers:
+                    h_.body = _pre_split(h_.body)
+            if isinstance(s_, ast.Assign) and len(s_.targets) == 1 and isinstance(s_.targets[0], ast.Name) and isinstance(s_.value, ast.IfExp) \
+                    and any(isinstance(c_, ast.Call) and isinstance(c_.func, ast.Name) and c_.func.id.startswith("_") for c_ in ast.walk(s_.value)):
+                ie = s_.value
+                mk = lambda v, s_=s_: ast.copy_location(ast.Assign(targets=[copy.deepcopy(s_.targets[0])], value=v), s_)
+                out.append(ast.copy_location(ast.If(test=ie.test, body=[mk(ie.body)], orelse=[mk(ie.orelse)]), s_))
+                continue
+            out.append(s_)
+        return out
+    tree.body = _pre_split(tree.body)
     inl = Inliner(tree)
     n = inl.run()
+    _resolve_explicit_class_attrs(tree)
     for fn_ in ast.walk(tree):
         if isinstance(fn_, ast.FunctionDef) and not _is_njit(fn_):
             _sink_into_selector_chain(fn_)
@@ -2656,10 +3530,19 @@ def normalize(tree):
         if isinstance(node, ast.FunctionDef):
             _fuse_row_views(node)
         if isinstance(node, ast.FunctionDef) and _is_njit(node):
+            _inline_local_consts(node)
+            _sink_store_into_arms(node)
+            _split_bool_casts(node)
+            _trip_counter_loops(node)
             _canonicalise_counter_whiles(node)
             _unroll_const_tuple_loops(node)
+            _unroll_const_whiles(node)
             node.body = _split_simple_statements(node.body)       # statement forms only; kernels are otherwise read by the walker
         if isinstance(node, ast.FunctionDef) and not _is_njit(node):
+            node.body = _split_simple_statements(node.body)
+            _drop_bool_flags(node)
+            _unswitch_loops(node)
+            _fuse_loop_unpack(node)
             _eliminate_loop_continues(node)
             node.body = _split_simple_statements(node.body)
             if _sink_into_selector_chain(node):        # a chain that `x = A if c else B if d else None` has just become
@@ -2697,6 +3580,8 @@ def normalize(tree):
                         break
                 _FoldDisplays().visit(node)
                 _static_expand(node, consts)
+                _PruneConstantIfs().visit(node)          # `if owns:` with the row's literal substituted
+                _drop_dead_pure_stores(node)
     # a private helper whose every use was inlined is dead for the analysis: its body is judged where it now runs
     dropped = set()
     for name in sorted(tree._inlined_helpers):
